@@ -53,6 +53,7 @@ func init() {
 		recFor(r, "C04")
 		c10For(r, "C04", map[string]string{"C10/token-registry/stake-caps-above-100-percent": "C04/solvency/stake-caps-above-100-percent"})
 		c20For(r, "C04", map[string]string{"C20/escrow/module-below-recorded-bonds": "C04/solvency/layer2-escrow", "C20/lp-msg/free-money": "C04/solvency/layer2-lp-free-money"})
+		c11For(r, "C04", map[string]string{"C11/invariant/module-holds-less-than-recorded": "C04/solvency/basket-reserves-not-held", "C11/invariant/coins-not-recorded": "C04/solvency/basket-coins-not-recorded"})
 		// spending pools and collectives: an enactment that fails half-way must leave books and coins together
 		collFor(r, "C04", map[string]string{"C18/withdraw/failed-but-changed": "C04/solvency/failed-enactment-left-writes", "C18/solvency": "C04/solvency/spending-pools",
 			"C18/coll-endblock/bonds-no-longer-held": "C04/solvency/collective-bonds-no-longer-held"})
